@@ -278,6 +278,25 @@ def _families(cases):
             for ix, n in v["data"].items():
                 hit("cfft.index_data." + ix, n if n in (0, 254, 255, 256, 65534, 65535, 65536) else "other")
             hit("cfft.charset", v["charset"])
+            hit("cfft.source_layout[%s]" % cid, "standard" if v["lay"] == 0 else "reversed-with-gaps")
+            if v["lay"] == 1:
+                hit("cfft.reversed_layout_with", "charset-" + v["charset"])
+                hit("cfft.reversed_layout_with", "top-dict-data-" + edge(v["top"]))
+                hit("cfft.reversed_layout_with", "header-%s" % ("4" if v["hdr"]["size"] == 4 else "longer"))
+                for plen, subrs in zip(v["priv"], v["subrs"]):
+                    hit("cfft.reversed_layout_with", "private-" + ("subrs" if subrs else "no-subrs"))
+                    hit("cfft.reversed_layout_with", "private-dict-data-" + edge(plen))
+            h = v["hdr"]
+            hit("cfft.header_size[%s]" % cid, h["size"])
+            hit("cfft.header_skipped_bytes", h["pad"])
+            hit("cfft.header_off_size", "%d%s" % (h["offSize"], "+skipped-bytes" if h["size"] > 4 else ""))
+            hit("cfft.header_minor", h["minor"])
+            if h["size"] > 4:
+                hit("cfft.long_header_with_top_dict_data", edge(v["top"]))
+                hit("cfft.long_header_with_charset", v["charset"])
+                hit("cfft.long_header_with_strings", min(v["nstrs"], 3))
+                for ix, n in v["data"].items():
+                    hit("cfft.long_header_with_index_data." + ix, n if n in (0, 254, 255, 256) else "other")
     return fam
 
 
@@ -297,6 +316,23 @@ REQUIRED_FAMILIES = {
     "cfft.index_data.cs": ["254", "255", "256"],
     "cfft.index_data.ls": ["0", "254", "255", "256"],
     "cfft.charset": ["predefined", "format0"],
+    # lengths that travel with the bytes they count: the CFF header (hdrSize) with bytes behind its four fields
+    "cfft.header_size[name-keyed]": ["4", "5", "6", "8", "10", "255"],
+    "cfft.header_size[cid]": ["4", "5", "6", "8", "10", "255"],
+    "cfft.header_skipped_bytes": ["none", "zero", "reads-as-empty-index", "other"],
+    "cfft.header_off_size": ["1", "2", "3", "4", "1+skipped-bytes", "2+skipped-bytes", "3+skipped-bytes", "4+skipped-bytes"],
+    "cfft.header_minor": ["0", "1", "255"],
+    "cfft.long_header_with_top_dict_data": ["253", "254", "255", "256", "other"],
+    "cfft.long_header_with_charset": ["predefined", "format0"],
+    "cfft.long_header_with_strings": ["0", "2", "3"],
+    "cfft.long_header_with_index_data.gs": ["0", "255", "other"],
+    "cfft.long_header_with_index_data.ls": ["0", "256", "other"],
+    # the source in another layout (offsets followed, not assumed)
+    "cfft.source_layout[name-keyed]": ["standard", "reversed-with-gaps"],
+    "cfft.source_layout[cid]": ["standard", "reversed-with-gaps"],
+    "cfft.reversed_layout_with": ["charset-predefined", "charset-format0", "top-dict-data-254", "top-dict-data-255", "top-dict-data-256",
+                                  "header-4", "header-longer", "private-subrs", "private-no-subrs", "private-dict-data-255",
+                                  "private-dict-data-256"],
     # flag-packed fields: the flag set and clear for every count
     "ivd.long_words_flag": ["set", "clear"],
     "ivd.word_delta_count": ["%s:%d/3" % (w, n) for w in ("short", "long") for n in range(4)] + ["long:0/0", "short:0/0",
@@ -475,6 +511,8 @@ def _plant(events):
     tab_big = first(lambda e: e["ev"] == "Table" and e["a"]["k"] == "hmtx" and e["o"].get("w2") == "Ok")
     tab_cff = first(lambda e: e["ev"] == "Table" and e["a"]["k"] == "cff" and e["o"].get("w2") == "Ok"
                     and e["o"]["p2"]["dicts"] and e["o"]["p2"]["dicts"][0]["es"])
+    tab_cff_hdr = first(lambda e: e["ev"] == "Table" and e["a"]["k"] == "cff" and e["o"].get("w2") == "Ok" and e["o"]["orig"][2] > 5
+                        and e["o"]["b1"][2] == 4)
     wop = first(lambda e: e["ev"] == "WOp" and e["o"].get("res") == e["a"]["exp"]["res"]
                 and len(e["o"].get("buf", [])) > len(e["a"]["free"]))
 
@@ -504,7 +542,9 @@ def _plant(events):
             return None
         e = json.loads(json.dumps(e))
         f = e["a"]["exp"]["facts"]
-        e["o"] = {"res": "Ok", "back1": f, "bytes": e["a"]["src"], "back": json.loads(json.dumps(f)), "again": "same"}
+        src = e["a"]["src"]
+        e["o"] = {"res": "Ok", "back1": f, "hs1": src[2], "bytes": list(src), "reread": "Ok", "back": json.loads(json.dumps(f)), "hs": src[2],
+                  "again": "same"}
         return e
 
     def prescribed_ivd(e):
@@ -518,6 +558,9 @@ def _plant(events):
     gen_packed = as_prescribed(first(lambda e: e["ev"] == "Gen" and e["a"]["k"] == "glyphp" and len(e["a"]["exp"]["back1"]["pts"]) == 3))
     gen_cfft = prescribed_cfft(first(lambda e: e["ev"] == "Gen" and e["a"]["k"] == "cfft" and len(e["a"].get("src", [])) < 2000
                                      and len(e["a"]["exp"]["facts"]["strs"]) >= 2 and e["a"]["exp"]["facts"]["gs"]))
+    # a table whose header is longer than its four fields (the prescribed event keeps the skipped bytes: Dev_HdrPad)
+    gen_cfft_hdr = prescribed_cfft(first(lambda e: e["ev"] == "Gen" and e["a"]["k"] == "cfft" and len(e["a"].get("src", [])) < 2000
+                                         and e["a"]["src"][2] in (5, 6)))
     gen_ivd = prescribed_ivd(first(lambda e: e["ev"] == "Gen" and e["a"]["k"] == "ivd" and len(e["a"]["exp"]["bytes"]) > 8
                                    and e["a"]["exp"]["bytes"][2] >= 128 and e["a"]["exp"]["rows"] >= 1))
 
@@ -537,6 +580,11 @@ def _plant(events):
         at = skip_index(b, skip_index(b, b[2]))
         e["o"]["bytes"] = b[:at] + [0, 0] + b[at:]
 
+    def ed_hdr_echo(e):     # hdrSize announced as read, the bytes it counts not written (offsets as for a 4 byte header)
+        b = e["o"]["bytes"]
+        k = b[2] - 4
+        e["o"]["bytes"] = b[:4] + b[4 + k:]
+
     def ed_instr(e):        # the instruction block is gone, the flag words still announce it
         n_i = len(e["a"]["exp"]["back"]["instr"])
         e["o"]["bytes"] = e["o"]["bytes"][:-(n_i + 2)]
@@ -551,6 +599,15 @@ def _plant(events):
     plants = [
         ("gen-cfft-control-accepted", gen_cfft, lambda e: None),      # negative controls: the prescribed event itself
         ("gen-ivd-control-accepted", gen_ivd, lambda e: None),
+        ("gen-cfft-long-header-control-accepted", gen_cfft_hdr, lambda e: None),
+        ("gen-cfft-header-size-echoed-bytes-missing", gen_cfft_hdr, ed_hdr_echo),
+        ("gen-cfft-header-skipped-bytes-altered", gen_cfft_hdr, lambda e: e["o"]["bytes"].__setitem__(4, e["o"]["bytes"][4] ^ 255)),
+        ("gen-cfft-header-first-read", gen_cfft_hdr, lambda e: e["o"].update(hs1=4)),
+        ("gen-cfft-header-reread", gen_cfft_hdr, lambda e: e["o"].update(hs=4)),
+        ("gen-cfft-reread-fails", gen_cfft, lambda e: e["o"].update(reread="Err:BadEof", back=[], hs=-1, again="n/a")),
+        ("gen-cfft-header-minor-lost", gen_cfft_hdr, lambda e: e["o"]["bytes"].__setitem__(1, e["o"]["bytes"][1] ^ 1)),
+        ("gen-cfft-header-offsize-changed", gen_cfft_hdr, lambda e: e["o"]["bytes"].__setitem__(3, e["o"]["bytes"][3] % 4 + 1)),
+        ("table-cff-header-size-echoed", tab_cff_hdr, lambda e: e["o"]["b1"].__setitem__(2, e["o"]["orig"][2])),
         ("gen-cfft-string-index-shifted", gen_cfft, ed_shift),
         ("gen-cfft-reread-lost-string", gen_cfft, lambda e: e["o"]["back"].update(strs=[])),   # allsorts' second reading
         ("gen-cfft-first-read", gen_cfft, lambda e: e["o"]["back1"].update(gs=e["o"]["back1"]["gs"][1:])),
@@ -665,7 +722,10 @@ def run(ctx):
             sorted(want_planted - planted_seen), sorted(planted_seen & controls))
     elif plants_missing:
         selfcheck_error = "binding self-check: no conforming event to corrupt for %s" % plants_missing
-    if selfcheck_error and not violations:
+    # (known findings do not excuse a failed self-check: only violations that will be reported do)
+    known = vlib.load_known(ctx.prop)
+    new_violations = [v for v in violations if v.key not in known]
+    if selfcheck_error and not new_violations:
         raise vlib.ToolError(selfcheck_error)
     if selfcheck_error:
         ctx.note(selfcheck_error + " (violations present: reported first)")
@@ -696,7 +756,7 @@ def run(ctx):
             vacuous.append("no oversize value generated for %s" % k)
     if wrep.get("read_backs", 0) == 0 or wrep.get("relational_events", 0) == 0:
         vacuous.append("writer replay without read-backs / refusals")
-    if vacuous and not violations:
+    if vacuous and not new_violations:
         raise vlib.ToolError("vacuous: " + "; ".join(vacuous))
     if vacuous:
         ctx.note("vacuity (violations present: reported first): " + "; ".join(vacuous))
